@@ -442,6 +442,20 @@ class ExpRun:
                 k = cp.shape[1]
                 if not np.array_equal(cp, chain[:, :k], equal_nan=True):
                     ctx.violate(PROP, "snapshot_not_prefix", self._sig())
+            # burn-in / thinning of the record: states b, b+t, b+2t, ... in order
+            if n >= 2:
+                b_ = ctx.sched.randrange(0, n)
+                t_ = ctx.sched.choice([1, 2, 3, 4])
+                try:
+                    from cuqi.samples import Samples as _Samples
+                    bt = np.array(_Samples(chain.copy()).burnthin(b_, t_).samples, float)
+                    bt = bt.reshape(1, -1) if bt.ndim == 1 else bt
+                    want = chain[:, b_::t_]
+                    ctx.count("burnthin_checks")
+                    if bt.shape != want.shape or not np.array_equal(bt, want, equal_nan=True):
+                        ctx.violate(PROP, "burnthin_of_record", self._sig(), Nb=b_, Nt=t_, got=list(bt.shape), want=list(want.shape))
+                except core.SimCrash:
+                    raise
             # 8 consecutiveness
             if self.sc.get("cb", True) and self.kind in ("MH", "CWMH", "MALA", "NUTS", "PCN") and n:
                 init = as_vec(inc.s.initial_point) if with_w else None
